@@ -14,7 +14,8 @@ c_Menu == {
     L("L6", <<"d2.b">>, "d3.b", TRUE),          \* identity (LinkSame)
     L("L7", <<"d2.a">>, "d2.b", FALSE),         \* inside one dataset
     L("L8", <<"d3.b">>, "d1.b", TRUE),
-    L("L9", <<"d2.a", "d3.a">>, "d1.b", FALSE) }  \* two inputs owned by different datasets
+    L("L9", <<"d2.a", "d3.a">>, "d1.b", FALSE),   \* two inputs owned by different datasets
+    L("L10", <<"d1.a", "d1.b">>, "d2.b", TRUE) }  \* many-to-one helper (MultiLink) with a backward function: d2.b defines d1.a and d1.b
 c_MenuSmall == {l \in c_Menu : l.id \in {"L1", "L2", "L3", "L4", "L6"}}
 c_All == c_Dataset
 c_None == {}
